@@ -27,7 +27,7 @@ META = {
     "exhaustive_tiers": {"quick": {"histories of length <= 2 over 12 operations x 13 configurations": True},
                          "thorough": {"histories of length <= 3 over 12 ops + length 4 over 6 state-touching ops x 13 configurations": True}},
 }
-META["added"] = "Added: catalogs gridded on another region before. regions that do not fill their bounding box (a missing lattice cell; events in the hole are outside), magnitudes far above the last edge in the synthetic catalogs. in-memory forecasts without n_cat (13 configurations), spatial_counts(cartesian=True) as a twelfth operation, empty-first catalog layouts. in-memory catalogs that only declare the forecast's filter statements. region-less in-memory catalogs, reference = equivalent pre-filtered plain forecast. empty observations, id gaps in files, catalogs bound to another region."
+META["added"] = "Added: in-memory catalogs bound to a larger region under the spatial filter. catalogs gridded on another region before. regions that do not fill their bounding box (a missing lattice cell; events in the hole are outside), magnitudes far above the last edge in the synthetic catalogs. in-memory forecasts without n_cat (13 configurations), spatial_counts(cartesian=True) as a twelfth operation, empty-first catalog layouts. in-memory catalogs that only declare the forecast's filter statements. region-less in-memory catalogs, reference = equivalent pre-filtered plain forecast. empty observations, id gaps in files, catalogs bound to another region."
 MANIFEST = {
     "technique": "sequential history log on a live CatalogForecast checked op-by-op against a reference model (filtered catalog list) and, for evaluations, against the equivalent pre-filtered plain forecast; quiescent-state invariant after each complete operation; exhaustive short histories + random long ones",
     "level_text": "All operation histories up to length 2 (quick) / 3-4 (thorough) over the 12 public operations are enumerated on 13 source/filter configurations; each step's observable result (pass stream, event counts, n_cat, expected rates, marginals, the six evaluations) must equal the single-pass reference regardless of what was called before, and the iterator must be back in its initial state after every complete operation.",
@@ -151,6 +151,10 @@ def build(fc, cfg, tmpdir):
             # ... or arrive bound to ANOTHER region object (same cells listed in reverse, other magnitude edges)
             from csep.core.regions import CartesianGrid2D
             creg = CartesianGrid2D.from_origins(reg.origins()[::-1].copy(), dh=reg.dh, magnitudes=numpy.asarray(mags) + 0.05)
+        if cfg["spatial"] and len(fc["cats"]) % 3 == 0:
+            # ... or bound to a LARGER region (three more columns to the east, which hold the events the forecast's spatial filter removes): the
+            # forecast's own region decides what is inside
+            creg = fixtures.region(nx + 3, ny, dh, ax, ay, magnitudes=mags)
         for i, evs in enumerate(fc["cats"]):
             if kw["filters"] and i % 3 == 1:
                 # the catalog only DECLARES the forecast's filter statements (constructor argument); nothing has been applied to it
